@@ -30,6 +30,9 @@ type c07Conn struct {
 	def      *ref.Deflater
 	pending  [][]byte // complete inbound messages not yet (fully) read
 	pfrags   []int    // fragment count of each pending message
+	pcomp    []bool   // whether each pending message went out compressed
+	curComp  bool
+	noComp   bool // after a partly read compressed message was abandoned under context takeover the window is out of step: no more compressed messages
 	curFrags int
 	compHist int // bytes of compressed-message payload received under takeover (this connection\'s own LZ77 history)
 	cur      io.Reader
@@ -103,7 +106,7 @@ func (s *c07State) openConn(t fataler, mode c03Mode) *c07Conn {
 // sendMsg makes the peer of c send one complete message; upTo < 0 sends all fragments.
 func (c *c07Conn) frames(payload []byte, compress bool, nfrag int, text bool) []ref.Frame {
 	raw := payload
-	comp := compress && c.lc.Agreed.Deflate
+	comp := compress && c.lc.Agreed.Deflate && !c.noComp
 	if comp {
 		raw = c.def.Message(payload, ref.DVSync)
 		if c.lc.Agreed.SenderTakeover(!c.mode.Client) {
@@ -155,6 +158,11 @@ func (s *c07State) readSome(t fataler, c *c07Conn, bufSize int) (eof bool) {
 		c.cur, c.curWant, c.curOff = r, c.pending[0], 0
 		c.pending = c.pending[1:]
 		c.curFrags = 1
+		c.curComp = false
+		if len(c.pcomp) > 0 {
+			c.curComp = c.pcomp[0]
+			c.pcomp = c.pcomp[1:]
+		}
 		if len(c.pfrags) > 0 {
 			c.curFrags = c.pfrags[0]
 			c.pfrags = c.pfrags[1:]
@@ -226,7 +234,7 @@ var c07Bufs = []int{1, 7, 100, 4096, 50000}
 
 func TestC07(t *testing.T) {
 	rec := evid.For("C07")
-	rec.Rule = "rapid state machine over 2-6 simultaneously open connections (roles and compression modes drawn per connection) with scripted peers; every inbound payload byte is a function of (connection, message, offset). Actions: peer sends a message (un/compressed, 1-3 fragments); read n bytes; read to EOF; read AGAIN from a reader that already returned EOF; abandon a message and ask for a new reader; protocol violation mid-message; local Close/CloseNow; peer Close frame between the fragments of a compressed message; reader context expiry mid-message; wsjson.Read; wsjson.Read of a document cut short (close, violation, context expiry, read limit); open a fresh connection (reusing the pools); write messages (checked on the wire by the reference decoder). Oracle: every Read result is the next bytes of that connection's own stream or an error, no byte is lost, a read after EOF yields no data, no panic. Non-trivial: a connection released pooled reader state (EOF, error, close) and a different connection subsequently started reading a compressed message. distinct = hash(step sequence)."
+	rec.Rule = "rapid state machine over 2-6 simultaneously open connections (roles and compression modes drawn per connection) with scripted peers; every inbound payload byte is a function of (connection, message, offset). Actions: peer sends a message (un/compressed, 1-3 fragments); read n bytes; read to EOF; read AGAIN from a reader that already returned EOF; abandon a message and ask for a new reader; protocol violation mid-message; local Close/CloseNow; peer Close frame between the fragments of a compressed message; reader context expiry mid-message; wsjson.Read; wsjson.Read of a document cut short (close, violation, context expiry, read limit) or invalid; two wsjson.Read calls on two connections overlapping in time; two connections' compressed messages read interleaved; asking for the next message after reading only part of a small one; open a fresh connection (reusing the pools); write messages (checked on the wire by the reference decoder). Oracle: every Read result is the next bytes of that connection's own stream or an error, no byte is lost, a read after EOF yields no data, no panic. Non-trivial: a connection released pooled reader state (EOF, error, close) and a different connection subsequently started reading a compressed message. distinct = hash(step sequence)."
 	rapid.Check(t, func(rt *rapid.T) {
 		rapid.SyncTest(rt, func(rt *rapid.T) {
 			e := newEnv(rt)
@@ -257,6 +265,7 @@ func TestC07(t *testing.T) {
 					}
 					c.pending = append(c.pending, payload)
 					c.pfrags = append(c.pfrags, nf)
+					c.pcomp = append(c.pcomp, comp && c.lc.Agreed.Deflate && !c.noComp)
 					step("send(c%d,%d,comp=%v,frags=%d)", c.id, n, comp, nf)
 				},
 				"readSome": func(rt *rapid.T) {
@@ -400,6 +409,144 @@ func TestC07(t *testing.T) {
 						f.alive = false
 					}
 				},
+				"abandonPartial": func(rt *rapid.T) {
+					// The application reads part of a small single-frame message and then simply asks for
+					// the next one. Whether that works depends on how much of the frame the library had
+					// consumed (the documentation only promises trouble): either Reader fails, or it
+					// hands out the next message intact. In both cases whatever the abandoned message's
+					// pooled state goes through must not reach other connections (checked by every later step).
+					c := s.pick(rt, func(c *c07Conn) bool {
+						// a compressed single-frame message of this size has been taken in completely by the
+						// library's buffers when the first byte comes out (otherwise the rest of the frame
+						// would be taken for frame headers: the documented user error)
+						return c.alive && c.cur != nil && c.curComp && c.curOff > 0 && c.curFrags == 1 && len(c.curWant) <= 3000 && len(c.pending) == 0
+					})
+					if c == nil {
+						return
+					}
+					next := tagged(c.id, c.seq, rapid.SampledFrom([]int{1, 50, 500}).Draw(rt, "nextSize"))
+					c.seq++
+					// (with context takeover the abandoned message's unread bytes never reach the window, so a
+					// compressed successor may rightly fail to inflate: the successor is sent uncompressed then)
+					if c.lc.Agreed.SenderTakeover(!c.mode.Client) {
+						c.noComp = true
+					}
+					nextComp := rapid.IntRange(0, 3).Draw(rt, "nextCompressed") == 0
+					for _, f := range c.frames(next, nextComp, 1, false) {
+						c.lc.Peer.send(f)
+					}
+					step("abandonPartial(c%d,readSoFar=%d/%d,next=%d)", c.id, c.curOff, len(c.curWant), len(next))
+					var r io.Reader
+					var err error
+					s.call(rt, "Reader after a partly read message", func() {
+						// give up after 5 s, but leave the context alone if the call succeeds: the reader lives on it
+						ctx, cancel := context.WithCancel(context.Background())
+						s.e.mu.Lock()
+						s.e.cancels = append(s.e.cancels, cancel)
+						s.e.mu.Unlock()
+						returned := make(chan struct{})
+						s.e.Go(func() {
+							select {
+							case <-returned:
+							case <-time.After(5 * time.Second):
+								cancel()
+							}
+						})
+						_, r, err = c.lc.C.Reader(ctx)
+						close(returned)
+					})
+					c.cur = nil
+					c.last = nil // the reader handle of the earlier message is the connection's one reader: it now belongs to whatever comes next
+					if err != nil {
+						c.alive = false
+						s.release(c.id, "abandon-partial-failed")
+						return
+					}
+					c.cur, c.curWant, c.curOff, c.curFrags = r, next, 0, 1
+					c.curComp = nextComp && c.lc.Agreed.Deflate && !c.noComp
+					s.release(c.id, "abandon-partial")
+					// the successor is read to its end at once: whatever the abandoned message still held goes back to the pools now
+					for !s.readSome(rt, c, 4096) {
+					}
+				},
+				"interleave2": func(rt *rapid.T) {
+					// two connections have a compressed message in progress at the same time: B's is begun,
+					// C's is begun and finished, then B's is finished - each must see its own bytes only
+					ok := func(c *c07Conn) bool {
+						return c.alive && c.cur == nil && len(c.pending) == 0 && c.lc.Agreed.Deflate && !c.noComp
+					}
+					b := s.pick(rt, ok)
+					if b == nil {
+						return
+					}
+					cc := s.pick(rt, func(c *c07Conn) bool { return ok(c) && c != b })
+					if cc == nil {
+						return
+					}
+					for _, c := range []*c07Conn{b, cc} {
+						n := rapid.SampledFrom([]int{300, 3000, 20000}).Draw(rt, "size")
+						payload := taggedRepeat(c.id, c.seq, n)
+						c.seq++
+						for _, f := range c.frames(payload, true, 1, false) {
+							c.lc.Peer.send(f)
+						}
+						c.pending = append(c.pending, payload)
+						c.pfrags = append(c.pfrags, 1)
+						c.pcomp = append(c.pcomp, true)
+					}
+					step("interleave2(c%d,c%d)", b.id, cc.id)
+					s.readSome(rt, b, 1)
+					for !s.readSome(rt, cc, 4096) {
+					}
+					for !s.readSome(rt, b, 4096) {
+					}
+				},
+				"wsjsonOverlap": func(rt *rapid.T) {
+					// two wsjson.Read calls on two connections overlap in time: B's document arrives in
+					// two pieces, and C's whole document is read while B's call waits for the second one
+					idle := func(c *c07Conn) bool { return c.alive && c.cur == nil && len(c.pending) == 0 }
+					b := s.pick(rt, idle)
+					if b == nil {
+						return
+					}
+					cc := s.pick(rt, func(c *c07Conn) bool { return idle(c) && c != b })
+					if cc == nil {
+						return
+					}
+					mk := func(c *c07Conn, pad int) string {
+						d := fmt.Sprintf(`{"conn":%d,"seq":%d,"pad":"%s"}`, c.id, c.seq, bytes.Repeat([]byte{byte('a' + c.id)}, pad))
+						c.seq++
+						return d
+					}
+					docB, docC := mk(b, 6000), mk(cc, 300)
+					fb := b.frames([]byte(docB), false, 2, true)
+					b.lc.Peer.send(fb[0])
+					step("wsjsonOverlap(c%d,c%d)", b.id, cc.id)
+					type val struct {
+						Conn, Seq int
+						Pad       string
+					}
+					var vb, vc val
+					var eb, ec error
+					bd := s.e.Call(func() { eb = wsjson.Read(context.Background(), b.lc.C, &vb) })
+					synctest.Wait()
+					for _, f := range cc.frames([]byte(docC), false, 1, true) {
+						cc.lc.Peer.send(f)
+					}
+					s.call(rt, "wsjson.Read", func() { ec = wsjson.Read(context.Background(), cc.lc.C, &vc) })
+					b.lc.Peer.send(fb[1])
+					if !within(bd, 60*time.Second) {
+						rt.Fatalf("C07: conn %d: wsjson.Read did not return\nsteps: %v", b.id, s.steps)
+					}
+					if ec != nil || vc.Conn != cc.id || vc.Seq != cc.seq-1 || len(vc.Pad) != 300 {
+						rt.Fatalf("C07: conn %d: wsjson.Read overlapping with one on conn %d returned %+v, %v\nsteps: %v", cc.id, b.id, val{vc.Conn, vc.Seq, trunc([]byte(vc.Pad))}, ec, s.steps)
+					}
+					if eb != nil || vb.Conn != b.id || vb.Seq != b.seq-1 || len(vb.Pad) != 6000 {
+						rt.Fatalf("C07: conn %d: wsjson.Read overlapping with one on conn %d returned conn=%d seq=%d pad=%d bytes, %v\nsteps: %v", b.id, cc.id, vb.Conn, vb.Seq, len(vb.Pad), eb, s.steps)
+					}
+					s.release(b.id, "wsjson")
+					s.release(cc.id, "wsjson")
+				},
 				"wsjsonCut": func(rt *rapid.T) {
 					// wsjson.Read of a document that is cut short (the peer closes, violates the
 					// protocol or stalls until the context expires after the first fragment): the
@@ -409,13 +556,18 @@ func TestC07(t *testing.T) {
 					if c == nil {
 						return
 					}
-					kind := rapid.SampledFrom([]string{"close", "violation", "ctx-expiry", "read-limit"}).Draw(rt, "cutKind")
+					kind := rapid.SampledFrom([]string{"close", "violation", "ctx-expiry", "read-limit", "invalid-json", "invalid-json"}).Draw(rt, "cutKind")
 					doc := fmt.Sprintf(`{"conn":%d,"seq":%d,"pad":"%s"}`, c.id, c.seq, bytes.Repeat([]byte{byte('a' + c.id)}, 2000))
 					c.seq++
 					fr := c.frames([]byte(doc), rapid.Bool().Draw(rt, "cutCompressed"), 3, true)
 					ctx := context.Background()
 					var cancel context.CancelFunc = func() {}
-					if kind == "read-limit" {
+					if kind == "invalid-json" {
+						// a complete message that is not JSON: the call fails and closes the connection with 1007
+						for _, f := range c.frames([]byte(doc[:len(doc)-2]+"!!"), false, 2, true) {
+							c.lc.Peer.send(f)
+						}
+					} else if kind == "read-limit" {
 						c.lc.C.SetReadLimit(100)
 						for _, f := range fr {
 							c.lc.Peer.send(f)
@@ -479,6 +631,9 @@ func TestC07(t *testing.T) {
 					s.call(rt, "Conn.Read", func() { _, got, err = c.lc.C.Read(context.Background()) })
 					want := c.pending[0]
 					c.pending = c.pending[1:]
+					if len(c.pcomp) > 0 {
+						c.pcomp = c.pcomp[1:]
+					}
 					if len(c.pfrags) > 0 {
 						c.pfrags = c.pfrags[1:]
 					}
